@@ -129,6 +129,11 @@ func ruleTB9a(pkg, fn string, floor int) Rule {
 				if _, ok := info.Types[rhs]; !ok || info.Types[rhs].Value == nil {
 					return true
 				}
+				if v, isInt := constInt(info, rhs); isInt && v <= 0 {
+					if _, isName := ops[k]; !isName {
+						return true // `op = 0`: no operator, not a token
+					}
+				}
 				key := fmt.Sprintf("%s|op=%s", f.Name, k)
 				produced[k] = true
 				want, known := ops[k]
